@@ -54,8 +54,8 @@ def run(res):
     quick = res.tier == "quick"
     lib.proof_stage(res, "C14.v", "Props.C14", PINNED)
     cov = res.coverage
-    sizes = [("systematic", 260), ("random", 500), ("malformed", 260), ("burial", 3), ("window", 2)] if quick else \
-            [("systematic", 100000), ("random", 12000), ("malformed", 4000), ("burial", 3), ("window", 2)]
+    sizes = [("systematic", 260), ("random", 500), ("malformed", 260), ("burial", 3), ("window", 2), ("testnet", 40)] if quick else \
+            [("systematic", 100000), ("random", 12000), ("malformed", 4000), ("burial", 3), ("window", 2), ("testnet", 600)]
     cases, fails, stats = correspondence(res, sizes)
     wcases, wfails = window_failures(cases)
     if any(c.get("max_reorg_size") != 100 for c in cases):
@@ -83,7 +83,7 @@ def run(res):
                           has_input=False)
     if not mon:
         for c in wfails[:2]:
-            model = lib.coq_eval(imports, "win_trace winit (fst (%s))" % c["wcoq"], "c14w_show")
+            model = lib.coq_eval(imports, "let '(r0, ops, _) := %s in win_trace (wstart r0) ops" % c["wcoq"], "c14w_show")
             res.violation("the number of headers the tracker remembers (ChainTracker::headers) disagrees with Model.Monitor.win_trace "
                           "(window of MAX_REORG_SIZE)", {"correspondence": "monitor-window", "theorem": "C14_window",
                           "case": slim(c), "model": model[-3000:]}, has_input=False)
@@ -106,7 +106,8 @@ def run(res):
                 "double spends, a second close, a two-input close, children before parents, a commitment the signer "
                 "has no info for, and a stream without block start; burial: is_done at depth 99/100/99; window: 103 blocks connected, MAX_REORG_SIZE-1 back and forward again, "
                 "exactly MAX_REORG_SIZE back (all accepted, view of the first 3 blocks), one more (refused, nothing changes), "
-                "with and without a restart; every tracker-driven case also checks ChainTracker::headers.len() after each "
+                "with and without a restart; testnet: signers on a network with compiled-in checkpoints, restarts at small non-zero heights "
+                "(the tracker's tip / height / remembered headers must survive the restart), then disconnect the last block and connect a competing one; every tracker-driven case also checks ChainTracker::headers.len() after each "
                 "delivery against the window model. Delivery "
                 "compact (SPV part with every transaction), watched (SPV part with what the tracker's watch sets match, empty for "
                 "unrelated blocks) or streamed, through the tracker or the listener interface; signer restarts (tracker, monitors "
